@@ -3,6 +3,7 @@
   `applyFul`.
 -/
 import Sge.Gen.Kernels
+import SgeProofs.Lemmas.KernelsTie
 import Sge.Core.Orderbook
 namespace Sge.KernelsTie
 open Sge Sge.Core Sge.Gen.Kernels
@@ -22,10 +23,11 @@ theorem krn_tie_SetCurrentRound (oddsCur : Nat) (p : Part) (e : PExp) (bAmt π :
           p.crMaxLossOdds (applyFul oddsCur p e bAmt π).2.exposure (applyFul oddsCur p e bAmt π).2.bet oddsCur bAmt).2.2.1,
         crMaxLossOdds := (orderbook_OrderBookParticipation_SetCurrentRound p.totalBet p.crTotalBet p.crMaxLoss false
           p.crMaxLossOdds (applyFul oddsCur p e bAmt π).2.exposure (applyFul oddsCur p e bAmt π).2.bet oddsCur bAmt).2.2.2 } := by
-  unfold applyFul setMaxLoss orderbook_OrderBookParticipation_SetCurrentRound orderbook_OrderBookParticipation_setMaxLoss
-    orderbook_ParticipationExposure_CalculateMaxLoss orderbook_OrderBookParticipation_CalculateMaxLoss
-  simp only [Bool.false_eq_true, if_false, beq_iff_eq, gt_iff_lt]
-  (repeat' split) <;> first | rfl | (exfalso; omega) | (simp only [Part.mk.injEq, true_and, and_true] <;> omega)
+  unfold applyFul setMaxLoss orderbook_OrderBookParticipation_SetCurrentRound
+  try unfold orderbook_OrderBookParticipation_setMaxLoss
+  try unfold orderbook_ParticipationExposure_CalculateMaxLoss
+  try unfold orderbook_OrderBookParticipation_CalculateMaxLoss
+  krn_close [Part.mk.injEq]
 
 example : orderbook_OrderBookParticipation_SetCurrentRound 30 30 10 false 1 107 70 2 20 = (50, 50, 127, 2) := by
   decide +kernel
